@@ -904,8 +904,19 @@ fn gen_case(batch: &str, index: u64, seed: u64) -> Case {
             // SVC batches
             let n = if pr.chance(0.4) { pr.usize_in(4, 12) } else { pr.usize_in(4, 80) };
             let p = pr.usize_in(1, 5);
-            let (x, y, dkind) = gen_two_class(&mut r, n, p);
+            let (mut x, y, mut dkind) = gen_two_class(&mut r, n, p);
             let kernel = gen_kernel(&mut pr, false, false);
+            // translation-invariant kernel: the data may sit far from the origin (years, prices) without
+            // changing the optimisation problem — the model must still equal its closed-form expansion
+            if kernel.kind == "rbf" && pr.chance(0.3) {
+                let off = *pr.pick(&[100.0, 1000.0, 2000.0]);
+                for row in x.iter_mut() {
+                    for v in row.iter_mut() {
+                        *v += off;
+                    }
+                }
+                dkind.push_str("+offset");
+            }
             let c = *pr.pick(&[0.1, 1.0, 10.0, 100.0]);
             let tol = *pr.pick(&[1e-2, 1e-3, 1e-4]);
             let epoch = pr.usize_in(1, 4);
